@@ -79,23 +79,6 @@ Proof.
   match goal with |- match ?X with _ => _ end = _ => replace X with (Ok (A:=toks) T) by (symmetry; exact S6) end. exact E3.
 Qed.
 
-(* n-ary version of ev1..ev4 *)
-Lemma ev_list (l : list (call * (Z * toks))) c r :
-  Forall (fun p => Ev (fst p) (snd p)) l ->
-  (forall s, Forall (fun p => s (fst p) = Ok (snd p)) l -> F s c = Ok r) -> Ev c r.
-Proof.
-  intros Hl.
-  assert (HN : exists N, forall m, (N <= m)%nat -> Forall (fun p => run m (fst p) = Ok (snd p)) l).
-  { induction Hl as [|p l' Hp Hl' IH]; [exists 0%nat; intros; constructor|].
-    destruct IH as [N1 H1]. apply Ev_all in Hp as [N2 H2]. exists (N1 + N2)%nat. intros m Hm.
-    constructor; [apply H2; lia|apply H1; lia]. }
-  intros H. destruct HN as [N HN]. exists (S N). cbn [run]. apply H. apply HN. lia.
-Qed.
-
-Ltac inv_forall :=
-  repeat match goal with H : Forall _ (_ :: _) |- _ => inversion H; subst; clear H end;
-  cbn [fst snd] in *.
-
 Lemma name_type f l Y : fNoCond f = false -> normal l = true -> harmless (hd_tk Y) = true -> stop_tk (hd_tk Y) = true ->
   Ev (CType LLowest f (tk1 (KIdent l) :: Y)) (0, Y).
 Proof.
@@ -108,34 +91,40 @@ Proof.
 Qed.
 
 (* method / call / construct / accessor signature *)
-Lemma member_meth ks opt ps h ret s T post :
-  ParamsSt mg ps -> RetSt mg ret -> wf_params_with wfb ps = true -> (h = true -> wf_ret_with wfb ret = true) ->
+Lemma member_meth ks opt tps ps h ret s T post :
+  TParamsSt mg tps -> wf_tparams_with wfb tps = true -> ParamsSt mg ps -> RetSt mg ret -> wf_params_with wfb ps = true -> (h = true -> wf_ret_with wfb ret = true) ->
   (ks = [] -> opt = false) -> (h = true -> tail_ok ret (sep_toks s ++ T) = true) ->
   sep_fits s T -> Ev (CObjLoop T) (0, post) ->
-  Ev (CObjLoop (R (TMMeth ks opt ps h ret s) T)) (0, post).
+  Ev (CObjLoop (R (TMMeth ks opt tps ps h ret s) T)) (0, post).
 Proof.
-  intros HPs HRs Wp Wr Hko Htl Hsep HT. cbn [R].
+  intros HTs Wt HPs HRs Wp Wr Hko Htl Hsep HT.
   destruct (sep_head s T Hsep) as [S1 [S2 [S3 S6]]].
   set (A := if h then tk1 KColon :: R ret (sep_toks s ++ T) else sep_toks s ++ T).
   set (P := tk1 KLParen :: join [tk1 KComma] (map R ps) (tk1 KRParen :: A)).
   assert (HFn : Ev (CFnArgs P) (0, A)).
   { eapply ev1; [apply (HPs Wp A)|]. intros s0 E1. cbn [F]. unfold F_fnargs, P. cbn. exact E1. }
-  assert (HP : Ev (CParams false P) (0, P)) by (apply params_none_ev; reflexivity).
+  set (TP := tparamsR mg tps P).
+  assert (ER : R (TMMeth ks opt tps ps h ret s) T = keys_toks ks (optq opt ++ TP)) by (subst TP P A; destruct h; reflexivity).
+  rewrite ER. clear ER.
+  destruct (HTs Wt P ltac:(reflexivity)) as [pcode HP].
+  assert (HTP : key_stop (optq opt ++ TP) = true /\ is KRBrace (optq opt ++ TP) = false /\ is KPlus (optq opt ++ TP) = false /\ is KMinus (optq opt ++ TP) = false /\ is KLBrack (optq opt ++ TP) = false)
+    by (subst TP; destruct opt, tps; repeat split; reflexivity).
+  destruct HTP as [T0 [T1 [T2 [T3 T4]]]].
   assert (HRet : h = true -> Ev (CType LLowest fl_ret (R ret (sep_toks s ++ T))) (0, sep_toks s ++ T)).
   { intros E. apply HRs; auto. }
-  assert (Hfirst : is KRBrace (keys_toks ks (optq opt ++ P)) = false /\ is KPlus (keys_toks ks (optq opt ++ P)) = false /\
-                   is KMinus (keys_toks ks (optq opt ++ P)) = false).
-  { repeat split; apply is_keys_not; try reflexivity; destruct opt; reflexivity. }
+  assert (Hfirst : is KRBrace (keys_toks ks (optq opt ++ TP)) = false /\ is KPlus (keys_toks ks (optq opt ++ TP)) = false /\
+                   is KMinus (keys_toks ks (optq opt ++ TP)) = false).
+  { repeat split; apply is_keys_not; try reflexivity; assumption. }
   destruct Hfirst as [F1 [F2 F3]].
-  assert (Hstep : forall s0, s0 (CParams false P) = Ok (0, P) -> s0 (CFnArgs P) = Ok (0, A) ->
+  assert (Hstep : forall s0, s0 (CParams false TP) = Ok (pcode, P) -> s0 (CFnArgs P) = Ok (0, A) ->
             (h = true -> s0 (CType LLowest fl_ret (R ret (sep_toks s ++ T))) = Ok (0, sep_toks s ++ T)) ->
-            s0 (CObjLoop T) = Ok (0, post) -> F s0 (CObjLoop (keys_toks ks (optq opt ++ P))) = Ok (0, post)).
+            s0 (CObjLoop T) = Ok (0, post) -> F s0 (CObjLoop (keys_toks ks (optq opt ++ TP))) = Ok (0, post)).
   { intros s0 E1 E2 E3 E4. cbn [F]. unfold F_objloop. rewrite F1, F2, F3. cbn [orb].
-    rewrite skip_keys_keys by (destruct opt; reflexivity). cbn [orb].
-    assert (E5 : is KLBrack (optq opt ++ P) = false) by (destruct opt; reflexivity). rewrite E5.
+    rewrite skip_keys_keys by exact T0. cbn [orb].
+    rewrite T4.
     unfold bind at 1. cbn iota beta.
-    replace (if (match ks with [] => false | _ :: _ => true end) && (is KQuestion (optq opt ++ P) || is KBang (optq opt ++ P)) then tl (optq opt ++ P) else optq opt ++ P) with P
-      by (destruct ks; [rewrite (Hko eq_refl); reflexivity|destruct opt; reflexivity]).
+    replace (if (match ks with [] => false | _ :: _ => true end) && (is KQuestion (optq opt ++ TP) || is KBang (optq opt ++ TP)) then tl (optq opt ++ TP) else optq opt ++ TP) with TP
+      by (subst TP; destruct ks; [rewrite (Hko eq_refl); reflexivity|destruct opt, tps; reflexivity]).
     unfold snd_of, bind. rewrite E1. cbn iota beta.
     assert (E6 : is KColon P = false) by reflexivity. assert (E7 : is KLParen P = true) by reflexivity.
     rewrite E6, E7. rewrite E2. cbn iota beta.
@@ -146,11 +135,11 @@ Proof.
     - rewrite S3.
       match goal with |- match ?X with _ => _ end = _ => replace X with (Ok (A:=toks) T) by (symmetry; exact S6) end. exact E4. }
   destruct h.
-  - eapply (ev_list [(CParams false P, (0, P)); (CFnArgs P, (0, A));
+  - eapply (ev_list [(CParams false TP, (pcode, P)); (CFnArgs P, (0, A));
                      (CType LLowest fl_ret (R ret (sep_toks s ++ T)), (0, sep_toks s ++ T)); (CObjLoop T, (0, post))]).
     + repeat constructor; cbn [fst snd]; auto.
     + intros s0 Hs. inv_forall. apply Hstep; auto.
-  - eapply (ev_list [(CParams false P, (0, P)); (CFnArgs P, (0, A)); (CObjLoop T, (0, post))]).
+  - eapply (ev_list [(CParams false TP, (pcode, P)); (CFnArgs P, (0, A)); (CObjLoop T, (0, post))]).
     + repeat constructor; cbn [fst snd]; auto.
     + intros s0 Hs. inv_forall. apply Hstep; auto. discriminate.
 Qed.
